@@ -43,8 +43,22 @@ def check_summaries(ctx):
     from ..core import Ctx
     sub = Ctx("C01", m, ctx.tier)
     sub.summaries = {}
+    # the algebra reads lists through the normalising properties: the raw fields are tuples after slicing / dagger
+    raw_hit = set()
+    for q in (MON + ".Diagram.then", MON + ".Diagram.tensor", CAT + ".Arrow.then", MON + ".Diagram.dagger" if (MON + ".Diagram.dagger") in m.functions else CAT + ".Arrow.dagger"):
+        try:
+            fn = m.func(q)
+        except Exception:
+            continue
+        raw = sorted({ast.unparse(x) for x in c01.own_nodes(fn) if isinstance(x, ast.Attribute) and x.attr in ("_boxes", "_offsets") and isinstance(x.ctx, ast.Load)})
+        ctx.ob("R02.1", q + ":reads-lists", not raw, found=raw or "boxes / offsets read through their properties", required="`boxes` / `offsets` (lists), not the raw fields: after slicing or dagger "
+               "the raw fields are tuples and list + tuple raises TypeError", mod=q.rsplit(".", 2)[0], node=fn, sig="raw-fields", trivial=True)
+        if raw:
+            raw_hit.add(q)
     for which in ("then", "tensor"):
         q = MON + ".Diagram." + which
+        if q in raw_hit:
+            continue
         fn = m.func(q)
         ctx.analysed(q)
         site = next((c for c in c01.own_nodes(fn) if isinstance(c, ast.Call) and ast.unparse(c.func) == "Diagram"), None)
